@@ -4,7 +4,7 @@ from core import World, parse_fs, Line
 from gen import Gen, mode_line, Call
 from suites import gen_history, run_suite, parse_snap, parse_snap_scan, esc, unesc, has_cr_eol, snap_file_suffix, mutate_call
 
-LEAN_MODULES = ['GoSnaps.Props.C03', 'GoSnaps.Props.Tie.Path', 'GoSnaps.Props.Tie.Snapshot', 'GoSnaps.Props.Tie.SnapshotIO', 'GoSnaps.Props.Tie.Registry', 'GoSnaps.Props.Tie.Flows']
+LEAN_MODULES = ['GoSnaps.Props.C03', 'GoSnaps.Props.C06', 'GoSnaps.Props.Tie.Path', 'GoSnaps.Props.Tie.Snapshot', 'GoSnaps.Props.Tie.SnapshotIO', 'GoSnaps.Props.Tie.Registry', 'GoSnaps.Props.Tie.Flows']
 
 
 def valid_json(b):
@@ -272,4 +272,11 @@ def run(ctx):
     worlds += fixed_worlds()
     worlds += gap_worlds()
     run_suite(ctx, 'match.addressing', worlds, known=known, chunk=150)
+    # "... or run concurrently": two tests sharing a file, every schedule of their lookups and rewrites (the explorer of
+    # C06 on the pairs in which a slot is created or rewritten next to another test's slot): each slot ends up holding
+    # what its own test stored, pre-existing entries keep their places
+    import importlib
+    c06 = importlib.import_module('props.C06')
+    c06.explore(ctx, subset=[('update', 'update'), ('update', 'match'), ('match', 'update'), ('create', 'update'), ('update', 'create'),
+                             ('create', 'create'), ('update', 'mismatch')])
     findings.report(ctx, 'C03')
